@@ -247,7 +247,7 @@ class ParseContext(ParserEngine):
         try:
             with self.if_():
                 yield
-        except ParseException:
+        except FailedParse:
             pass
         else:
             raise self.newexcept('', excls=FailedLookahead)
